@@ -180,10 +180,34 @@ def GuardGap (lspec lang : Nat) (a : List CP) (ka : Kind) (b : List CP) (kb : Ki
 instance (lspec lang a ka b kb rest) : Decidable (GuardGap lspec lang a ka b kb rest) := by
   unfold GuardGap; infer_instance
 
-/-- `a / *p` -> `a/*p`: comment openers are not punctuators (replayed: sp_arith=remove) -/
+/-- `a / *p` -> `a/*p`: comment openers are not punctuators.  A gap of the check as it was (`forceSpace`); the current code tests
+    for it first (`forceSpace2`, theorem `C02_comment_opener_guarded`) -/
 theorem C02_fuse_guard_gap_comment_open : GuardGap 1 1 [47] .punct [42] .punct [112, 42, 47] := by decide
-/-- `/` `/` -> `//` -/
+/-- `/` `/` -> `//` (likewise a gap of the former check only) -/
 theorem C02_fuse_guard_gap_line_comment : GuardGap 1 1 [47] .punct [47] .punct [] := by decide
+
+/-- **comment openers are guarded now**: whatever the language and the options, a first token that ends in `/` (and does not start
+    with `@"`: a C# verbatim string ends in its quote, not in `/`) followed by a token that starts with `*` or `/` gets
+    PCF_FORCE_SPACE -/
+theorem C02_comment_opener_guarded (lang : Nat) (dig permit aAC bAC : Bool) (a b : List CP)
+    (ha : a.getLast? = some 47) (h5 : a.take 2 ≠ [64, 34]) (hb : b.head? = some 42 ∨ b.head? = some 47) :
+    forceSpace2 lang dig permit a aAC b bAC = true := by
+  have hne : a ≠ [] := by intro h; simp [h] at ha
+  have h1 : a ≠ [91, 93] := by intro h; simp [h] at ha
+  have h2 : a ≠ [123, 123] := by intro h; simp [h] at ha
+  have h3 : a ≠ [125, 125] := by intro h; simp [h] at ha
+  have h4 : a ≠ [40, 41] := by intro h; simp [h] at ha
+  have hlen : a.length > 0 := by cases a with | nil => exact absurd rfl hne | cons _ _ => simp
+  simp only [forceSpace2, opensCommentPair, ha]
+  rcases hb with hb | hb <;> simp [hb, hlen, h1, h2, h3, h4, h5]
+
+/-- the former check is a lower bound of the current one: everything `C02_fuse_guard_complete_partial` proves is inherited -/
+theorem C02_forceSpace2_ge (lang : Nat) (dig permit aAC bAC : Bool) (a b : List CP)
+    (h : forceSpace lang dig permit a aAC b bAC = true) : forceSpace2 lang dig permit a aAC b bAC = true := by
+  simp [forceSpace2, h]
+
+/-- with the new test `a / *p` and `a / /b` are no gaps any more -/
+example : forceSpace2 1 false false [47] false [42] false = true ∧ forceSpace2 1 false false [47] false [47] false = true := by decide
 /-- `0x1e + 3` -> `0x1e+3`, one pp-number (replayed: sp_arith=remove) -/
 theorem C02_fuse_guard_gap_hex_exponent_sign :
     GuardGap 1 1 [48, 120, 49, 101] .number [43] .punct [51] := by decide
